@@ -438,7 +438,7 @@ func c07RunFSCase(in c07In, base string, idx int) c07FSResult {
 	key, _ := json.Marshal([]any{"fs", in.Variant, in.Plan})
 	r.c = emit.Case{
 		Desc: map[string]any{"class": class, "variant": in.Variant, "kind": in.Kind, "window": window,
-			"reuse": in.Cfg.Reuse, "issuers": in.Cfg.N, "backend": "filestorage-sigkill"},
+			"reuse": in.Cfg.Reuse, "issuers": in.Cfg.N, "fresh_key": c07FreshKey(o1), "backend": "filestorage-sigkill"},
 		In: in, Obs: map[string]any{"faulted": o1, "recovered": o2, "handshake_twin_ok": twin, "storage_before": s0.St,
 			"recovery_seconds": wait.Seconds()},
 		Wire: e.String(), Nontrivial: o1.Res == 6 && in.Plan.Crash < counted, Key: string(key)}
